@@ -71,6 +71,15 @@ def gen_tree(rng, n, poly, depth):
                 coeffs.append(({v: Fraction(1)}, Fraction(0)))
         return ('sym', list(zip(rows, coeffs)))
     op = rng.choice(['add', 'add', 'sub', 'sub', 'mul', 'mul', 'scale', 'adde', 'sube', 'mule', 'sum', 'wz', 'cancel'])
+    if op == 'mul' and n >= 2 and not poly and rng.random() < 0.3:
+        # a single-term numeric factor whose exponents are not zero but add up to zero (y0 / y1, sqrt(y1 / y0), ...)
+        e = Fraction(rng.choice([1, 2, 1]), rng.choice([1, 2]))
+        row = [Fraction(0)] * n
+        i, j = rng.sample(range(n), 2)
+        row[i], row[j] = e, -e
+        mono = ('num', [(row, Fraction(rng.choice([1, 2, -1, 3]), rng.choice([1, 2])))])
+        a = gen_tree(rng, n, poly, depth - 1)
+        return ('mul', a, mono) if rng.random() < 0.6 else ('mul', mono, a)
     if op in ('add', 'sub', 'mul'):
         return (op, gen_tree(rng, n, poly, depth - 1), gen_tree(rng, n, poly, depth - 1))
     if op == 'cancel':
